@@ -149,7 +149,7 @@ def norm_obs(o):
     return " ".join("%s=%s" % (k, kv[k]) for k in ("refused", "exit", "nerr", "evs", "dst"))
 
 
-def oracle(raw, users):
+def oracle(raw, users, delete=False):
     fails = []
     src, before, after = raw["src"], raw["before"], raw["after"]
     if raw["rc"] != 0 or raw["nerr"]:
@@ -167,6 +167,8 @@ def oracle(raw, users):
             lit = (rel.endswith(".sy.tmp") and rel[:-7] in src) or (rel + ".sy.tmp") in src
             fails.append({"path": rel, "why": "destination file does not hold its source's content after the run", "klass": "literal-temp-name" if lit else None})
     for rel, b in before.items():
+        if delete:
+            break           # with --delete the extras are removed on purpose: judged by the mirror clause below
         if rel in src or b["kind"] != "f":
             continue
         a = after.get(rel)
@@ -177,10 +179,12 @@ def oracle(raw, users):
     for rel in after:
         if rel not in before and rel not in src:
             fails.append({"path": rel, "why": "a path that is neither a source entry nor a pre-existing file remains after the run (working file left behind?)", "klass": None})
+        if delete and rel not in src:
+            fails.append({"path": rel, "why": "--delete --force-delete: a destination path without a source counterpart remains after a successful run", "klass": None})
     return fails
 
 
-def footprint(sc, src_root, dst_root, fl, srcsnap, tag):
+def footprint(sc, src_root, dst_root, fl, srcsnap, tag, stale=()):
     """run under strace; returns (failures, n_mutations, n_temp_paths_seen)"""
     log = os.path.join(sc.dir, "strace_%s.log" % tag)
     env = dict(os.environ); env.update(sc.env); env["SY_VERIF_DELTA_THRESHOLD"] = str(ew.BIG)
@@ -193,6 +197,10 @@ def footprint(sc, src_root, dst_root, fl, srcsnap, tag):
     temps = set()
     for rel in srcsnap:
         allowed.add(os.path.normpath(os.path.join(dst_root, rel)))
+    for rel in stale:                       # delete tasks: the stale entries and their directories
+        parts = rel.split("/")
+        for n in range(1, len(parts) + 1):
+            allowed.add(os.path.normpath(os.path.join(dst_root, *parts[:n])))
     for rel in files:
         d = os.path.dirname(rel)
         t = os.path.normpath(os.path.join(dst_root, d, tmap[os.path.basename(rel).encode()].decode("utf-8", "surrogateescape")))
@@ -221,6 +229,12 @@ def run_world(sc, i, seed, reps, known, stats, only_jobs=None):
     viol, hits, cases, obs_l, metas = [], {}, [], [], []
     clash = (i % 5 == 4)
     srcf, dstf, users = gen_world(r, literal_clash=clash)
+    delete = (i % 3 == 1 and not clash)
+    if delete:
+        # nested stale directories: with several workers the delete tasks of a directory and of its entries run concurrently
+        for d in ("stale", "stale/in", "stale/in/deep", "gone"):
+            for n in range(r.randrange(1, 5)):
+                dstf["%s/s%d.dat" % (d, n)] = (r.randbytes(r.choice([0, 10, 3000])), 7002 * NS)
     base = os.path.join(sc.dir, "w%d" % i)
     src = base + "/src"
     write_tree(src, srcf)
@@ -232,13 +246,13 @@ def run_world(sc, i, seed, reps, known, stats, only_jobs=None):
         dst = base + "/dst_%d" % k
         write_tree(dst, dstf)
         world.sync_fs()
-        fl = {"j": j}
+        fl = {"j": j, "delete": 1, "force": 1} if delete else {"j": j}
         ids = ew.Ids()
         if k == 1:
             ssnap = world.snapshot(src)
             dstt = base + "/dst_t"
             write_tree(dstt, dstf)
-            ff, nmut, nt, _rc = footprint(sc, src, dstt, {"j": j}, ssnap, "w%d" % i)
+            ff, nmut, nt, _rc = footprint(sc, src, dstt, dict(fl), ssnap, "w%d" % i, stale=[p for p in dstf if p not in srcf] if delete else [])
             stats["footprint_mutations"] += nmut; stats["temp_paths_seen"] += nt
             for f in ff[:3]:
                 viol.append(dict(tag, jobs=j, failure=f, family="footprint"))
@@ -252,7 +266,7 @@ def run_world(sc, i, seed, reps, known, stats, only_jobs=None):
         results.append((j, obs, raw))
         if not clash:
             cases.append(case); obs_l.append(norm_obs(obs)); metas.append((i, j))
-        for f in oracle(raw, users):
+        for f in oracle(raw, users, delete):
             if f["klass"] in known and clash:
                 hits.setdefault(known[f["klass"]]["id"], []).append((i, j, f))
             else:
